@@ -1423,7 +1423,7 @@ int32 matrixResumeSession(ssl_t *ssl)
     {
         DLListRemove(&g_sessionTable[i].chronList);
     }
-    ssl->sessionIdInTable = 1;
+    ssl->sessionIdInTable = 2; /* holds an entry that is already filled in */
     psUnlockMutex(&g_sessionTableLock);
 
     return PS_SUCCESS;
@@ -1481,9 +1481,21 @@ int32 matrixUpdateSession(ssl_t *ssl)
         psUnlockMutex(&g_sessionTableLock);
         return PS_SUCCESS;
     }
+    if (ssl->sessionIdInTable != 1)
+    {
+        /* The entry was filled in when the handshake that created the
+           session completed (or this connection resumed it). Later calls,
+           in particular the one from matrixSslDeleteSession, only release
+           the hold: they must not write this connection's copy back into
+           an entry that a fatal alert on another connection of the same
+           session has invalidated in the meantime */
+        psUnlockMutex(&g_sessionTableLock);
+        return PS_SUCCESS;
+    }
     Memcpy(g_sessionTable[i].masterSecret, ssl->sec.masterSecret,
         SSL_HS_MASTER_SIZE);
     g_sessionTable[i].cipher = ssl->cipher;
+    ssl->sessionIdInTable = 2;
     psUnlockMutex(&g_sessionTableLock);
     return PS_SUCCESS;
 }
